@@ -31,6 +31,10 @@ TRUSTED_BASE = [
     "hand model coq/C04/Model.v (grid, DAG edges, validators, GBS collection) tied by exact correspondence; theorems in coq/Base/Reorder.v quantify over ANY topological order, so networkx's choice is irrelevant",
     "harness tools/props/c04.py computes each command's dependency set from the generated spec, not from the implementation",
     "assumption checked by the harness: a circuit never contains the same Command object twice",
+    "harness oracles computed from the generated spec in Python: leading part of group_operations (unmarked commands without a marked ancestor), GBS accept/reject "
+    "decision (no command depends on a Fock measurement, no mode measured twice), merge-freeness of a circuit for the optimiser, reference DAG isomorphism for "
+    "Program.equivalence; linearisations returned by Program.optimize / Program.compile are judged by the proved Coq validator as well",
+    "a command without any dependency (only constructible by hand) is dropped by the list -> DAG conversion: modelled (nodes = commands with dependencies), excluded by hypothesis in the theorems",
 ]
 ASSUMPTIONS = ["networkx topological sorts are library code: their outputs are validated per run, not predicted"]
 MANIFEST_TEXT = ("Proved for all circuits and every legal linearisation: same commands, every wire's command sequence preserved (hence relative order of any two "
@@ -42,6 +46,7 @@ SINGLE = ["Rgate", "Sgate", "Dgate"]
 # kind -> (class name in the compiled circuit, merge family of a plain single-mode gate or None)
 KINDS = {
     "g1": ("Rgate", "R"), "g1i": ("Rgate", "R"), "s1": ("Sgate", "S"), "d1": ("Dgate", "D"), "k1": ("Kgate", "K"), "v1": ("Vgate", "V"),
+    "f1": ("Fouriergate", "R"),  # decomposed into an Rgate by every compiler used here (compile stream only)
     "pv": ("Vacuum", "P"), "ps": ("Squeezed", "P"), "lc": ("LossChannel", "L"),
     "g2": ("BSgate", None), "g3": ("Interferometer", None), "ga": ("Rgate", None),
     "mx": ("MeasureHomodyne", None), "mxs": ("MeasureHomodyne", None), "mhd": ("MeasureHeterodyne", None), "mf": ("MeasureFock", None),
@@ -96,6 +101,8 @@ def build(n, cmds):
                     ops.Kgate(0.1) | regs[modes[0]]
                 elif kind == "v1":
                     ops.Vgate(0.1) | regs[modes[0]]
+                elif kind == "f1":
+                    ops.Fouriergate() | regs[modes[0]]
                 elif kind == "pv":
                     ops.Vacuum() | regs[modes[0]]
                 elif kind == "ps":
@@ -1058,7 +1065,7 @@ def prog_case(rng, palette):
     n, focus = pick_register(rng)
     style = rng.random()
     if style < 0.45:
-        singles = ("g1", "s1", "d1", "ps", "lc") if palette == "compile" else ("g1", "s1", "d1", "k1", "v1", "ps", "lc")  # few merges
+        singles = ("g1", "s1", "d1", "ps", "lc", "f1") if palette == "compile" else ("g1", "s1", "d1", "k1", "v1", "ps", "lc")  # few merges
     elif style < 0.75:
         singles = ("g1", "g1i")  # many merges and cancellations (wires may become empty)
     else:
@@ -1081,8 +1088,11 @@ def run_relinearise(site, n, cmds, compiler=None, optimize=False):
         return "circuit-error", str(e)
     if [id(c) for c in prog.circuit] != [id(c) for c in circ_in]:
         raise InputModified("%s changed the circuit of the source program" % site)
-    exact = (site == "compile" and not optimize) or merge_free(cmds)
+    fourier = [i for i, c in enumerate(cmds) if c[0] == "f1"]
+    exact = ((site == "compile" and not optimize) or merge_free(cmds)) and not fourier
     bad, got = judge_relinearised(cmds, circ_in, list(out), exact)
+    if bad is None and site == "compile" and set(fourier) & set(got):
+        bad = ("not-decomposed", "the compiled circuit still contains the Fourier gate(s) %s, which this compiler decomposes" % sorted(set(fourier) & set(got)))
     if site == "compile" and not optimize and bad is None and got != list(range(len(cmds))):
         # without the optimiser these compilers hand the decomposed sequence through: any other order is still legal, just noted
         pass
@@ -1151,7 +1161,10 @@ def search_equiv(ctx):
     for k in range(ctx.budget(160, 1600)):
         n, focus = pick_register(rng)
         cmds = [tuple(c) for c in rich_cmds(rng, n, focus, rng.randint(2, 9), palette="prog", singles=("g1", "s1", "d1", "k1"))]
-        cmds = [c for c in cmds if c[0] != "g2p"]  # a beam splitter with an unmeasured parameter cannot be evaluated by equivalence
+        # what equivalence makes of unbound beam-splitter parameters and of per-mode measurement options is C18's subject: left out here,
+        # so that only the dependency structure decides
+        plain = {"mfs": "mf", "mfd": "mf", "mxs": "mx"}
+        cmds = [(plain.get(c[0], c[0]), c[1], c[2]) for c in cmds if c[0] != "g2p"]
         if build(n, cmds) is None:
             continue
         legal = k % 2 == 0
